@@ -21,7 +21,7 @@ CHECKS.update({
               'rounding-matrix and specification-critical operand pairs are decided singly by constant propagation. Pairs of two dense significands and the multiplier/divider beyond the probed pairs are NOT decided.'), design='4/C01'),
     'C02': dict(level='proof', technique='symbolic bit-vector abstract interpretation of MIR on rounding cells (sign x scale x rounding situation; remaining bits symbolic): result vector == correctly rounded encoding, may-mode path enumeration for undecided tests, concrete confirmation before any alarm; interval cells for zero/subnormal/inf/NaN',
         text=('Every finite non-zero normal f32/f64 lies in exactly one rounding cell (sign, exponent, rounding situation of the target) on which the six from_f32/from_f64 conversions return bit-for-bit the posit-rule rounding (nearest, ties to even encoding, saturating, never zero); zeros, subnormals, infinities and NaNs are decided on interval cells. Hence from_f32(x) == from_f64(x as f64). Quick tier samples the sticky position / carry run for f64->P32E2 only; thorough takes every cell.'), design='4/C02'),
-    'C06': dict(level='other', technique='abstract interpretation per cell + literal-table agreement with exact integer square roots',
+    'C06': dict(level='other', technique='abstract interpretation per cell + literal-table agreement with exact integer square roots + constant propagation at hard-to-round arguments',
         text=('P8E0::sqrt decided for all 256 inputs (table indexing term + every table entry vs exact root); P16E1/P32E2: NaR, negative, zero and literal cut-point cells. '
               'perfect squares and the hardest-to-round P32E2 arguments around one decided singly. Newton-Raphson general path NOT decided (a seeded 1-ulp degradation of the iteration is known to escape).'), design='4/C06'),
     'C07': dict(level='proof', technique='symbolic bit-vector abstract interpretation of MIR on rounding cells (sign x scale x rounding situation; remaining bits symbolic): result vector == correctly rounded encoding, may-mode path enumeration for undecided tests, concrete confirmation before any alarm',
@@ -53,10 +53,10 @@ CHECKS.update({
         text=('to_f32/to_f64 of P8E0 and P16E1 and to_f64 of P32E2 are proved exact for every bit pattern: on each regime cell (sign x regime run x exponent bits, fraction bits symbolic) the result is '
               'bit-for-bit the specified routing; zero/NaR cells; P32E2::to_f32 = `to_f64() as f32`; Display/FromStr wiring through f64; posit -> float -> posit is proved the identity for every pattern by composing the two routings per regime cell (856 cells). float -> posit -> float needs C02 on the general path and is NOT claimed.'),
         design='4/C03'),
-    'C04': dict(level='other', technique='abstract interpretation on accumulator-state x operand cells, term-mode expansion of operand spellings, dependence slices, rounding cells of the accumulator for to_posit',
+    'C04': dict(level='other', technique='abstract interpretation on accumulator-state x operand cells, term-mode expansion of operand spellings, dependence slices, symbolic bit-vector cells: rounding cells of the accumulator (to_posit), exact accumulator image of p * 2^t (QIMAGE), exact placement (QPLACE); directed accumulate sequences',
         text=('is_zero/is_nar decided for every accumulator state (all limbs), to_posit returns 0/NaR exactly there; NaR stickiness and zero operands for all base spellings; every tuple/array `+=`/`-=` spelling expands to the '
               'expected products with the expected sign; every base spelling applied to the cleared quire with one posit (other factor ONE) leaves exactly +/-p for every p; accumulated value depends on flag, operands, accumulator; to_posit is proved to be the single posit-rule rounding of the fixed-point value of the state on rounding cells of the accumulator (every state for Q8E0; every leading-one position with sampled sticky / lowest-set-bit positions for Q16E1 and Q32E2); accumulate sequences whose exact sum is a tie, a near-tie or cancels are decided singly. After accumulating p * 2^t (every posit p, symbolic) onto the cleared quire or onto a constant with a carry chain the accumulator holds exactly the fixed-point image of the sum (QIMAGE). The accumulate of two dense significands onto an arbitrary accumulator is NOT decided beyond the probed sequences.'), design='4/C04'),
-    'C12': dict(level='other', technique='term-mode evaluation + state-cell abstract interpretation + bit routing per regime cell',
+    'C12': dict(level='other', technique='term-mode evaluation + state-cell abstract interpretation + symbolic bit routing per regime cell (round trip, exact placement of a single posit)',
         text=('from_bits(to_bits(q)) = q, clear(), neg() on every zero/non-zero limb pattern (incl. 512-bit Q32E2), the to_posit / -= alternation of into_two/three_posits, From<P> for Q = ZERO += (p, ONE); '
               'posit->quire->posit proved the identity for every P8E0, P16E1 and P32E2 bit pattern (regime cells refined by the lowest set fraction bit); q += p / q -= p on the cleared quire leave exactly +p / -p for every p. Exactness of the subtractions inside the residual split for a non-zero accumulator NOT decided.'), design='4/C12'),
     'C18': dict(level='proof', technique='term-mode abstract interpretation with a formal-polynomial domain over the generic default bodies',
@@ -65,17 +65,17 @@ CHECKS.update({
 })
 
 CHECKS.update({
-    'C13': dict(level='other', technique='abstract interpretation per bound N on N-bit pattern cells + unit/layout dataflow (R8) + selector dependence slice (R5)',
+    'C13': dict(level='other', technique='abstract interpretation per bound N on N-bit pattern cells + unit/layout dataflow (R8) + selector dependence slice (R5) + symbolic bit-vector rounding cells with one symbolic operand + directed probe families',
         text=('NaR/zero algebra, N==2 branches and guard cells of + - * / mul_add mul_sub sub_product sqrt round of PxE1<N>/PxE2<N> per bound N (quick: 8 widths, thorough: all 31); '
               'exponent extraction and regime scaling must use the units of the decoding type; the kernel result must depend on the selector. N-bit rounding on the general path and the '
               'rounding cells with one symbolic operand (as in C01 / C05) on PxE2<N> + - * / and the fused family and on PxE1<N> * / for N in {8,32} (thorough: 16 too); rounding-matrix, fused and sparse-product probes of the N-bit format decided singly for N in {5,8,16,32}. PxE2<32>==P32E2 / PxE1<16>==P16E1 equivalences are NOT decided. 24 genuine defects of the generic kernels are listed as known findings.'), design='4/C13'),
-    'C14': dict(level='other', technique='abstract interpretation per bound N (and per (M,N) pair) on source cells + bit routing per regime cell for to_f64',
+    'C14': dict(level='other', technique='abstract interpretation per bound N (and per (M,N) pair) on source cells + bit routing per regime cell for to_f64 + symbolic bit-vector rounding cells for the posit <-> posit conversions',
         text=('Zero/NaR preservation, N==2 and saturation cells, integer heads of all generic-width conversions per bound N; to_f64 exact by routing; fixed <-> generic and generic -> generic posit conversions proved correctly rounded on rounding cells for the analysed widths (sticky position sampled); from_f64 decided on probe floats. '
               'Integer <-> generic conversions beyond the guard cells and quire->PxE2 NOT decided. 12 genuine defects listed as known findings.'), design='4/C14'),
 })
 
 CHECKS.update({
-    'C11': dict(level='other', technique='literal-table agreement + abstract interpretation per cell against a 400-bit oracle with margin test',
+    'C11': dict(level='other', technique='literal-table agreement + abstract interpretation per cell against a 400-bit oracle with margin test + constant propagation through the kernels at probe encodings',
         text=('P8E0::exp and P8E0::ln decided for all 256 inputs (table index term, bounds, every entry vs the correctly rounded value); the ten P16E1 functions decided on every cell in front of '
               'the polynomial kernels (NaR, domain errors, exact zeros, saturation, rounds-to-1 cut-offs; thorough tier checks every point of each decided cell); kernel probes at every 64th encoding (8th in thorough) and the specification-critical encodings must be correctly rounded. The fixed-point kernels between the probe points are NOT decided.'),
         design='4/C11'),
